@@ -1,6 +1,7 @@
 import Mochi.Model.Broker
 import Mochi.Lemmas.AckRes
 import Mochi.Lemmas.BrokerInbound
+import Mochi.Props.C08Demo
 /-!
 # C08 — Inbound QoS 2 messages are forwarded exactly once
 
@@ -350,5 +351,18 @@ theorem C08_forwarded_exactly_once_seq (caps : Caps) (pre mid : List Op)
   refine ⟨h1, fun a b hab => ?_⟩
   rw [q08_run_append]
   exact h2 a b hab
+
+set_option maxRecDepth 100000 in
+/-- the history of `Mochi/Props/C08Demo.lean` is an instance of `C08_forwarded_exactly_once_seq` (`pre` = ops 0–2, the
+    PUBLISH = op 3, `mid` = ops 4–7: retransmission, drop, resumption, retransmission): its hypotheses hold, so the
+    exchange is open in every state of `mid` -/
+theorem C08_demo_history_instance :
+    ∀ a b, (c08History.drop 4).take 4 = a ++ b →
+      InOpen (run (init {}) (c08History.take 3 ++ (.recv 2 (.publish 2 false false 7 [116] [97] 0 none) :: a))) [112] 7 :=
+  (C08_forwarded_exactly_once_seq {} (c08History.take 3) ((c08History.drop 4).take 4) 2 2 7 false false [116] [97] 0 [112]
+    (by decide) (by decide) (by decide) (by decide)
+    ⟨by decide, by decide, by decide, by decide, by decide, by decide, by decide, by decide, by decide, by decide,
+      by decide⟩
+    (by decide)).2
 
 end Mochi.Broker
